@@ -21,7 +21,8 @@ CLAIMED = {
        + " (DICTROUND) dictionary-size rounding smear has every distance except 1; (BOUND) lzma2_bound in normal form n + 3*ceil(n/65536) + 1; SHA-256 structure rules of C14."
        + ' (DICTDECL) the match-finder window is derived from the declared dictionary size only.'
        + ' (REWIND) single-call coders restore the position on every error return; (UPD) as in C12.'
-       + ' (WINDOW, READFIRST) as in C01/C06.',
+       + ' (WINDOW, READFIRST) as in C01/C06.'
+       + ' (DRAIN) LZMA_STREAM_END of the LZMA1 encoder only after rc_encode() drained, as in C01; SHA-256 padding content as in C14.',
   technique="layout-fact extraction and comparison (encoder vs decoder vs spec), expression evaluation on sample values, finite-domain evaluation",
   ref="4/C02"),
  "C14": dict(
@@ -33,7 +34,8 @@ CLAIMED = {
        "wiring of CRC resolvers and check.c. The CLMUL data path and the slice-by-N loops as functions of all inputs are NOT "
        "decided. Also (MASKW) no 64-bit size/address is ANDed with a mask complemented in 32 bits; (PATH) the alignment prologue of the generic CRCs cannot consume more than the size guard leaves, lzma_sha256_update recomputes the buffer offset per piece."
        + " Further rules: SHA-256 padding: finite-domain evaluation of lzma_sha256_finish for all 64 residues: an extra block is processed iff the residue is >= 56."
-       + ' (FLOW) the Block coders update the check on every continuing path and finish it once; SHA length counter is 64-bit.',
+       + ' (FLOW) the Block coders update the check on every continuing path and finish it once; SHA length counter is 64-bit.'
+       + ' SHA-256 padding content: concrete evaluation of lzma_sha256_finish for all 64 residues over an abstract buffer: every block handed to process() is message tail, 0x80, zeros, length; (STATEW) no narrowing cast of the 64-bit CRC64 state in the value assigned back to it.',
   technique="table comparison against independently computed definitions; GF(2)-linear and truth-table evaluation of macro-expanded expression trees",
   ref="4/C14"),
  "C01": dict(
@@ -53,7 +55,8 @@ CLAIMED = {
        + " Round-3 rules: (WINDOW) hash-chain/binary-tree walkers stop at delta >= cyclic_size; (LIMITS) the LZMA2 chunk cut-off leaves OPTS+1 bytes; (DICTFRESH) dict->full is recomputed after dict->pos moved."
        + " LIMITS now derives the needed cut-off margin as OPTS + RC_SYMBOLS_MAX (read-ahead of one optimum run plus the output of one symbol)."
        + ' (DRAIN) a BCJ/simple coder reports the end only after its buffer was drained; the C12 UPDATE and C02 BOUND rules are evaluated here too.'
-       + " (CRC/READFIRST) the Index encoder's CRC32 and the re-used LZMA encoder's state (C06 rules).",
+       + " (CRC/READFIRST) the Index encoder's CRC32 and the re-used LZMA encoder's state (C06 rules)."
+       + ' (DELTA) the Delta encoder/decoder loop rules of C15; EMITSTATE also requires that a member emitted by rc_shift_low is overwritten before the function can return with the output full.',
   technique="path-sensitive event-count dataflow on the CFG (exactly-once / must-precede); post-dominator must-follow; field-coverage (E-COVER) with loop-bound vs array-dimension comparison; who-may-write table; table agreement",
   ref="4/C01"),
  "C20": dict(
@@ -73,7 +76,8 @@ CLAIMED = {
        + " (STATUS) xzgrep's result accumulator is evaluated over all (res, r) pairs; xzdiff selects a decompressor for each operand from its own name and keeps stdin for a '-' operand."
        + " (STATUS decomp-failure) a failed decompressor makes the file's status >= 2 for every grep status."
        + ' (STATUS xzdiff:status-loop, sigpipe-not-ignored).'
-       + ' (QUOTE xzless:lessmetachars; STATUS xz:empty-name-is-error).',
+       + ' (QUOTE xzless:lessmetachars; STATUS xz:empty-name-is-error).'
+       + " xzgrep's name dispatch evaluated for every installed link name (XZGREP_LINKS of CMakeLists.txt); xz does not make EPIPE an error status of its own (the scripts map every non-signal status of xz to 2); (FMT) xz recognises the .lzma headers liblzma decodes.",
   technique="shell AST taint and quoting-context analysis; idiom (typestate) rule on accumulator stores; case-arm coverage of the quote character; constant evaluation of the sed programs",
   ref="4/C20"),
  "C15": dict(
@@ -92,7 +96,8 @@ CLAIMED = {
        + " Further rules: (READFIRST) delta history/pos and BCJ buffers a coding function reads first are reset by every OK init path; IA-64 slot predicate equals opcode 5 / btype 0 on all assignments of the relevant bits; call_filter on coder->buffer does not depend on end_was_reached."
        + " (SCAN) all nine scan loops visit exactly the positions p with p + window <= size."
        + ' (PROTO compact) the BCJ wrapper moves filtered and unfiltered positions by the same amount when it compacts its buffer.'
-       + ' (POST) delta coders transform what the next coder wrote on every way out.',
+       + ' (POST) delta coders transform what the next coder wrote on every way out.'
+       + ' compact-before-reset, eof-needs-all-input (copy_or_code sets end_was_reached only through *in_pos == in_size), DELTA update-keeps-state (delta_encoder_update only forwards).',
   technique="AST/CFG shape rule for direction symmetry; exhaustive finite-domain evaluation of branch predicates from the CFG; exact bit-routing abstract evaluation of shift/mask/or code vs reference tables; edge-cut must-pass",
   ref="4/C15"),
  "C19": dict(
@@ -106,7 +111,8 @@ CLAIMED = {
        "for all byte strings is NOT decided. Also (SUFPOS) test_suffix examines src_name[src_len - suffix_len - 1] and compares exactly the last suffix_len bytes."
        + ' (ATTR) the full permission bits are copied only when the group could be set.'
        + ' (SUF custom-suffix-always-tested; ATTR group-compared-with-target).'
-       + ' (OPTMAP) long options map to their documented short synonyms; (ORDER) attributes are copied after the last write.',
+       + ' (OPTMAP) long options map to their documented short synonyms; (ORDER) attributes are copied after the last write.'
+       + ' (SKIPSTATUS) every `return NULL` of compressed_name/uncompressed_name passes message_warning/message_error; (ATTR) no write to the target after io_copy_attrs in io_close, the CMake probes for futimens/futimes/... include the declaring header; (OPTMAP) every OPT_* long option is named after its enumerator.',
   technique="table joins, finite-domain abstract evaluation over option combinations and all mode values, edge-cut must-pass",
   ref="4/C19"),
  "C18": dict(
@@ -120,7 +126,8 @@ CLAIMED = {
        + " The final sparse hole is materialised also when decoding failed (standard output is kept)."
        + ' (SPARSE position-probe) sparse mode is enabled for stdout only after the current position was compared with the file size; (PERFILE) per-file flags are reset for every file.'
        + ' (FMT) xz recognises exactly the .lzma files the library decodes.'
-       + ' (STATUS) as in C17.',
+       + ' (STATUS) as in C17.'
+       + " is_sparse coverage is computed per byte for any member width/step/bound; (FLUSHMODE) mytime_get_flush_timeout returns a timeout only with opt_mode == MODE_COMPRESS; (MTERR) the threaded decoder's pending error only after the queue was drained (C07); .lzma size bound (C16).",
   technique="finite-domain path-sensitive reachability (edge/block cuts), dominance and provenance rules over call arguments",
   ref="4/C18"),
  "C17": dict(
@@ -136,7 +143,8 @@ CLAIMED = {
        + " (EOF) src_eof only where read() returned 0."
        + " (NOFATAL) no message_fatal() is reachable while the incomplete target is open; (EINTR) an EINTR retry on a stdio stream clears its error indicator."
        + ' (SIG handled-signals) every termination signal xz can get while a target is open has the clean-up handler.'
-       + ' (STATUS message_error/message_warning record the status on every path).',
+       + ' (STATUS message_error/message_warning record the status on every path).'
+       + ' (STATUS) tuklib_exit stores err_status whichever way show_error is; (SPARSE) is_sparse examines every byte (C18); (OPTMAP) --no-sync/--no-sparse are dispatched through their own enumerators.',
   technique="finite-domain path-sensitive dataflow, must-pass/dominance rules, call-graph closure, who-may-call",
   ref="4/C17"),
  "C12": dict(
@@ -151,7 +159,8 @@ CLAIMED = {
        + ' (MTFLUSH) the threaded encoder reports a flush complete only when the output queue is empty and LZMA_FINISH only after the Index was encoded.'
        + " (FSM) lzma_code's transition relation (C11) is evaluated here too: a completed flush/barrier returns to ISEQ_RUN."
        + ' (STRONG) the update functions replace the chain only after the copy succeeded (C10 rule).'
-       + ' (BLKOPT, CHAINEND).',
+       + ' (BLKOPT, CHAINEND).'
+       + ' (LASTEND) delta_encode as last coder: every return passes the `action != LZMA_RUN && *in_pos == in_size` decision; (SIZEKEY) LZ encoder arrays kept only with unchanged final size keys (C10).',
   technique="must-pass-through (edge cut) on finite-domain product graphs, dominator rules, table comparison",
   ref="4/C12"),
  "C09": dict(
@@ -170,7 +179,8 @@ CLAIMED = {
        + " (OPTPATH) every store to lzma_lz_options on an encoder's init path has a live counterpart on its memusage path."
        + ' (FREEFIRST) a cached buffer replaced because its size key changed is freed before its replacement is allocated; (NEEDED) lzma_stream_buffer_decode reports the need through *memlimit.'
        + ' (XZ limit-by-mode) every decoding mode of xz uses --memlimit-decompress; (PENDING) lzma_memlimit_set counts a Block waiting to be started; (KEPT) a cached worker exempted from freeing is reconciled with the worker actually obtained.'
-       + ' (SIZEKEY) as in C10.',
+       + ' (SIZEKEY) as in C10.'
+       + ' (OUTQLOOP) the condition of every `while (...) helper(outq)` loop of outqueue.c reads a lzma_outq member the helper modifies.',
   technique="must-pass-through (edge cut) on finite-domain product graphs, table joins, dominance rules",
   ref="4/C09"),
  "C04": dict(
@@ -186,7 +196,8 @@ CLAIMED = {
        + " (ALLOCSZ lower bound) a member used as the element count of a header+array allocation whose element 0 is written at once is never stored as 0."
        + " (DISTVALID) every use of a decoded match distance is dominated by the dictionary-validity test; (SEEK) rules of C13 for the file-info decoder's seek target."
        + ' (READFIRST) no coding function reads a member that nothing in the session stored (all coder records).'
-       + ' (NULLARITH) no pointer arithmetic on a possibly-NULL buffer; (LOCALALLOC, OPTNULL, SHA, READFIRST).',
+       + ' (NULLARITH) no pointer arithmetic on a possibly-NULL buffer; (LOCALALLOC, OPTNULL, SHA, READFIRST).'
+       + ' SHA-256 padding content: no store outside the 64-byte block for any residue (C14).',
   technique="must-availability dataflow on a finite-domain product graph, interprocedural return-code sets with slot typestate, type-agreement joins",
   ref="4/C04"),
  "C11": dict(
@@ -200,7 +211,8 @@ CLAIMED = {
        + " (RESTORE) after a single-call function restored *in_pos/*out_pos the position is not read again (11 sites)."
        + ' (UNINIT) every access through strm->internal in a public function is preceded by its NULL test or by lzma_strm_init().'
        + ' (TIMEOUT) a timed-out wait of the threaded coders is reported as LZMA_TIMED_OUT.'
-       + ' (INITFAIL) a failed public initialiser leaves no old coder active; (IDX) bounds fact at every buffer access.',
+       + ' (INITFAIL) a failed public initialiser leaves no old coder active; (IDX) bounds fact at every buffer access.'
+       + ' (NOINPUT) lzma2_decode enters its loop in SEQ_LZMA without input whatever else holds.',
   technique="exhaustive finite-domain abstract interpretation of the wrapper's CFG vs a protocol table; structural def-use rules",
   ref="4/C11"),
  "C16": dict(
@@ -214,7 +226,8 @@ CLAIMED = {
        + " (STALENEXT) as in C09."
        + ' (C17-FAIL) xz accepts a .lzma/raw stream only if the one-byte probe finds nothing after it.'
        + " (XZ lzma-dict-size-set) xz's .lzma heuristic accepts the same dictionary sizes as liblzma; (ACCUM) Stream Padding length survives slicing."
-       + ' (ALONE no-get_check, known-size-kept; XZ rewind-unconditional).',
+       + ' (ALONE no-get_check, known-size-kept; XZ rewind-unconditional).'
+       + " (XZ) xz's bound for a known .lzma uncompressed size equals liblzma's; (LZMADEC) lzmadec's trailing-garbage test as in C18.",
   technique="finite-domain abstract interpretation vs spec tables, effect rules and must-pass rules on the product graph, cross-TU table agreement",
   ref="4/C16"),
  "C03": dict(
@@ -228,7 +241,8 @@ CLAIMED = {
        + " (SEQLABEL) each suspension of lzma_decode stores the state whose case label it sits under; (FASTSLOW) both copies of the symbol decoder expand literal_subcoder identically; (DICTFRESH)."
        + ' (DICTFRESH) a helper that copies into the dictionary recomputes dict.full.'
        + ' (READFIRST) decoders and filters start from what their init function stores.'
-       + " (SHA) C14's SHA-256 structure rules.",
+       + " (SHA) C14's SHA-256 structure rules."
+       + " (BCJBUF) compaction of the BCJ wrapper's buffer moves pos/size by the discarded amount, evaluated before pos is reset (shared with C15).",
   technique="finite-domain abstract interpretation of decision expressions vs spec tables, guard obligations, reachability on the product graph",
   ref="4/C03"),
  "C07": dict(
@@ -242,7 +256,8 @@ CLAIMED = {
        + " Further rules: worker-wait: the main thread waits only while a worker can still make progress; STOPACK/QUIESCE as in C08."
        + " (WAITARG) states that cannot consume input pass waiting_allowed = true; (OUTQRESET) lzma_outq_init resets read_pos."
        + " PROT also rejects contradicting lock-free excuses (an 'only this thread writes it' read next to a worker store): one known finding (partial_update)."
-       + ' (WAITPRED) every field whose writers signal a condition is tested by a wait predicate on that condition.',
+       + ' (WAITPRED) every field whose writers signal a condition is tested by a wait predicate on that condition.'
+       + ' (IGNCHK) the threaded decoder stores LZMA_IGNORE_CHECK into the Block options after the Block Header decoder reset it.',
   technique="must-lockset dataflow over a finite-domain product graph, protected-field table, must-pass rules",
   ref="4/C07"),
  "C08": dict(
@@ -255,7 +270,8 @@ CLAIMED = {
        + " (SIZEKEY) coder->block_size changes only together with the workers' input buffers; (OUTQRESET); get_progress takes one snapshot under coder->mutex."
        + " (WAITPRED) as in C07: the worker error flag is part of wait_for_work()'s predicate."
        + ' (ERR progress-zero-before-free) a worker returning to the free list has zeroed its counters; (BOUND) as in C02.'
-       + " (READFIRST, SIZEKEY) coders re-used by workers start each Block from their init function's stores; size keys are final when compared.",
+       + " (READFIRST, SIZEKEY) coders re-used by workers start each Block from their init function's stores; size keys are final when compared."
+       + ' (HDR) Block Header layout rules of C02 (every worker Block starts with lzma_block_header_encode into a recycled buffer); (FSM) lzma_code transition relation of C11 (FULL_BARRIER keeps its own state).',
   technique="must-lockset dataflow over a finite-domain product graph, protected-field table, must-pass rules",
   ref="4/C08"),
  "C10": dict(
@@ -270,7 +286,8 @@ CLAIMED = {
        + " (SYNCEND) every mutex/condition variable initialised for a coder is destroyed by its end function or by the joined worker."
        + ' (LOCALIDX) an index allocated by a function is freed on each of its failing paths; (LOCALOWN) lzma_raw_coder_init frees the partially built chain on failure.'
        + ' (REOWN) on the re-use path of an init function an owned member is released before it is overwritten.'
-       + ' (LOCALALLOC, LOCALCODER, STRM fail-frees, REWIND).',
+       + ' (LOCALALLOC, LOCALCODER, STRM fail-frees, REWIND).'
+       + ' (DEEPFREE) no lzma_free() of a lzma_index/index_stream on a path after something was appended to it.',
   technique="ownership/effect dataflow over clang CFGs, field-coverage joins over record layouts, unused-result rule on resolved callees",
   ref="4/C10"),
  "C13": dict(
@@ -284,7 +301,8 @@ CLAIMED = {
        + " (IDXDEC) index_decode ends only through its checks; (TREEWALK) no link member read after index_tree_append; (CURPOS) file_cur_pos advances only by application input."
        + " (ITERSTATE) the iterator encodes 'Stream without Record group' with its own method value."
        + ' (TOTALS) lzma_index_append bounds the running totals it maintains.'
-       + " (CRC) the Index decoder's running CRC32 covers exactly the bytes before the CRC32 field; (ITER nonempty-base); (INITCONS/READFIRST) for the file-info and Index decoders.",
+       + " (CRC) the Index decoder's running CRC32 covers exactly the bytes before the CRC32 field; (ITER nonempty-base); (INITCONS/READFIRST) for the file-info and Index decoders."
+       + ' SEEKSTATE now counts calls of helpers that return LZMA_SEEK_NEEDED (reverse_seek) and is evaluated from the state dispatch; (FSM) lzma_code leaves ISEQ_FINISH after LZMA_SEEK_NEEDED (C11).',
   technique="field-coverage and effect-ordering dataflow on the product graph, dominator-based guard rules, who-may-write",
   ref="4/C13"),
  "C05": dict(
@@ -296,7 +314,8 @@ CLAIMED = {
        "reported with the success exit it leaves unguarded. Does NOT decide that payload corruption is caught by the Check. Also: sizes from the Block Header are compared before they are overwritten with the counted sizes; each decoder flag member is derived from the flag constant of the same name; Backward Size is expanded in 64-bit arithmetic."
        + " Further rules: (ACCUM) counters a decoder state tests accumulate across calls; (INITCONS) a re-used container decoder starts like a fresh one."
        + ' (IGNCHK) lzma_block_header_decode resets ignore_check on every OK path.'
-       + ' (SHA; XZSTATUS: message_error records the exit status on every path).',
+       + ' (SHA; XZSTATUS: message_error records the exit status on every path).'
+       + ' (IGNCHK) lzma_block_decoder_init reads block->ignore_check only on the version >= 1 side; both stream decoders store block_options.ignore_check after lzma_block_header_decode() on every path that uses the options.',
   technique="must-pass-through (edge cut) on a finite-domain path-sensitive product graph with resume edges; interprocedural return-code sets",
   ref="4/C05"),
  "C06": dict(
@@ -311,7 +330,8 @@ CLAIMED = {
        + ' (ENCRESET) lzma_lzma_encoder_reset() stores to every counter that triggers recomputation of a price table (the tables are caches of the probabilities).'
        + ' (EMITSTATE) rc_shift_low carries its loop state in rc members only; (CRC field-not-hashed) bytes of the CRC32 field are never hashed.'
        + ' (STRMAP) the textual form of a filter chain covers the whole option map; MEMLIMIT_ERROR returns keep the running CRC32 consistent.'
-       + ' (SHA/PATH) the Check value does not depend on how update calls slice the data.',
+       + ' (SHA/PATH) the Check value does not depend on how update calls slice the data.'
+       + ' (BCJCANON) BCJ Filter Properties: start_offset == 0 takes the path of options == NULL in both props functions; (SEEKSTATE) as in C13; (NOINPUT) as in C11; BCJ compaction and eof-needs-all-input as in C15.',
   technique="liveness + reaching definitions over resume labels (clang CFG), finite-domain product-graph dataflow, call-graph reachability",
   ref="4/C06"),
 }
